@@ -41,6 +41,16 @@ def check_conversions(ctx):
     """(ALG-15) convert_flux between every pair of unit families, round trips and transitivity"""
     repo = ctx.repo
     cf = ctx.fn(repo.func('sed.helpers', 'convert_flux'))
+    # a conversion returns the converted values and leaves what it was given as it was: a store into an argument changes the caller's array - which keeps the
+    # element type the file was read with, and is converted a second time by the next call (effects.py: every store followed to its root)
+    from ..effects import Effects
+    try:
+        summ = Effects(repo, {}).summary(cf)
+        sites = [(p_, txt_) for p_, v_ in summ.mutates.items() for _, txt_ in v_]
+        ctx.expect(not sites, 'EFF-1', 'convert_flux does not modify its arguments', loc(cf), '%d stores classified, none into a parameter' % len(summ.stores),
+                   'writes into its argument%s %s: %s' % ('s' if len({p_ for p_, _ in sites}) > 1 else '', sorted({p_ for p_, _ in sites}), '; '.join(t_ for _, t_ in sites[:2])), 'mutates-argument')
+    except AnalysisError as ex:
+        ctx.undecided('EFF-1', 'convert_flux does not modify its arguments', loc(cf), 'effects not summarised: %s' % ex)
     U = units()
     X, nu, d = sym('X', A_, N_), sym('nu', N_), sym('dist')
     s1 = {'L': d.pow(-2), 'Fnu': nu, 'F': Poly.const(1)}
